@@ -144,9 +144,11 @@ Definition do_express (fe : frontend) (s : st) (i : N) (n : name) (cbp : bool) (
 Definition await_rec (fe : frontend) (nw : N) (r : irec) : irec :=
   match r.(i_wait) with
   | WNotAwaited =>
+      (* both front-ends: the lifetime runs from express (absolute deadline fixed there); a result first awaited
+         at or after the deadline gets a 100 ms allowance.  (The legacy front-end used to start the whole lifetime
+         at the first await, [nw + i_life]: known finding C03-v1-lifetime-from-first-await, fixed by 949ef3c.) *)
       let tm := match fe with
-                | V2 => if r.(i_deadline) <=? nw then nw + 100 else r.(i_deadline)
-                | V1 => nw + r.(i_life)
+                | V2 | V1 => if r.(i_deadline) <=? nw then nw + 100 else r.(i_deadline)
                 end in
       set_timer (set_wait r WWaiting) tm
   | _ => r
